@@ -689,6 +689,17 @@ pub fn run_transport(cfg: &TransportCfg, sc: &mut Sc) {
     let mut seen_enc: std::collections::BTreeMap<(Vec<u8>, u64), (Vec<u8>, Vec<u8>)> = std::collections::BTreeMap::new();
     for _step in 0..cfg.steps {
         let mut action = r.below(100);
+        // keep the traffic alive: operations that end a direction for good (a counter placed at the end of its range)
+        // only in the last fifth of the scenario; before that they become ordinary writes / deliveries
+        let late = _step * 5 >= cfg.steps * 4;
+        if !late && action >= 94 {
+            action = if r.chance(1, 2) { 10 } else { 50 };
+        }
+        // key changes are a minority of the operations (a third of the draws that select one stay): most of a
+        // scenario is traffic under a key both sides hold
+        if (70..88).contains(&action) && r.chance(2, 3) {
+            action = if r.chance(2, 5) { 10 } else { 45 };
+        }
         // in a one-way pattern only the initiator sends; the state-only operations (rekeys, explicit
         // nonces) are still exercised on the unused direction, where they must not disturb the used one
         let d = if oneway { if action >= 70 && r.chance(1, 3) { 1 } else { 0 } } else { r.below(2) };
@@ -782,7 +793,7 @@ pub fn run_transport(cfg: &TransportCfg, sc: &mut Sc) {
                 ({ let n = match r.below(12) { 0 => r.below(16), 1 => [65535usize, 65536, 65537, 70000][r.below(4)], _ => 16 + r.below(40) }; r.bytes(n) }, "garbage")
             } else if kind <= 4 {
                 // the next expected one if it exists
-                match dd.sent.iter().find(|(n, ..)| *n == dd.recv_n) {
+                match dd.sent.iter().rev().find(|(n, _, _, key)| *n == dd.recv_n && *key == dd.recv_key).or_else(|| dd.sent.iter().find(|(n, ..)| *n == dd.recv_n)) {
                     Some(x) => (x.1.clone(), "next"),
                     None => (r.pick(&dd.sent).1.clone(), "any"),
                 }
@@ -860,6 +871,11 @@ pub fn run_transport(cfg: &TransportCfg, sc: &mut Sc) {
                 },
                 (Out::Err(_), _) => {
                     sc.count("t.rejected");
+                    if what == "next" {
+                        // why an in-order delivery was (rightly) refused: distribution for the evidence
+                        let why = if short_cap { "short_buffer" } else if dd.recv_n == u64::MAX { "exhausted" } else if dd.sent.iter().any(|(n, m, _, key)| *n == dd.recv_n && *m == msg && *key != dd.recv_key) { "key_out_of_sync" } else { "other" };
+                        sc.count(&format!("t.next_refused.{why}"));
+                    }
                     // C19: no plaintext of any sent message in the buffer
                     if let Some((_, _, p, _)) = dd.sent.iter().find(|(_, m, ..)| m.len() == msg.len() && m[..m.len() - 16] == msg[..msg.len().max(16) - 16]) {
                         if p.len() >= 16 && sc.ex.last_buf.windows(p.len()).any(|w| w == p.as_slice()) {
@@ -870,7 +886,12 @@ pub fn run_transport(cfg: &TransportCfg, sc: &mut Sc) {
                 _ => {},
             }
         } else if action < 78 {
-            // synchronised rekey of one direction
+            // synchronised rekey of one direction, at a message boundary: mostly the receiver first catches up with the
+            // sender (messages still in flight under the old key are lost; without this the direction would be dead)
+            if dirs[d].recv_n != dirs[d].send_n && dirs[d].send_n != u64::MAX && r.chance(3, 4) {
+                sc.ex.set_recv_nonce(rd, dirs[d].send_n);
+                dirs[d].recv_n = dirs[d].send_n;
+            }
             let o1 = sc.ex.rekey(w, "out");
             let o2 = sc.ex.rekey(rd, "in");
             sc.check_panic(&o1, "rekey_outgoing");
@@ -878,7 +899,36 @@ pub fn run_transport(cfg: &TransportCfg, sc: &mut Sc) {
             dirs[d].send_key = format!("R({})", dirs[d].send_key);
             dirs[d].recv_key = format!("R({})", dirs[d].recv_key);
             sc.count("t.rekey_sync");
-        } else if action < 83 {
+        } else if action < 86 && dirs[d].send_key != dirs[d].recv_key && r.chance(4, 5) {
+            // the direction is out of sync after a one-sided rekey: mostly, bring it back (the complementary rekey
+            // when one side is exactly one REKEY ahead, otherwise the same manual key on both sides), so that the
+            // rest of the scenario still has live traffic in this direction
+            let sk = dirs[d].send_key.clone();
+            let rk = dirs[d].recv_key.clone();
+            if dirs[d].recv_n != dirs[d].send_n && dirs[d].send_n != u64::MAX {
+                sc.ex.set_recv_nonce(rd, dirs[d].send_n);
+                dirs[d].recv_n = dirs[d].send_n;
+            }
+            if sk == format!("R({rk})") {
+                let o = sc.ex.rekey(rd, "in");
+                sc.check_panic(&o, "rekey_incoming");
+                dirs[d].recv_key = sk;
+            } else if rk == format!("R({sk})") {
+                let o = sc.ex.rekey(w, "out");
+                sc.check_panic(&o, "rekey_outgoing");
+                dirs[d].send_key = rk;
+            } else {
+                let k: [u8; 32] = r.bytes(32).try_into().unwrap();
+                let (ki, kr) = if d == 0 { (Some(&k), None) } else { (None, Some(&k)) };
+                let o = sc.ex.rekey_manual(w, ki, kr);
+                sc.check_panic(&o, "rekey_manually");
+                let o = sc.ex.rekey_manual(rd, ki, kr);
+                sc.check_panic(&o, "rekey_manually");
+                dirs[d].send_key = format!("M({})", hex(&k));
+                dirs[d].recv_key = format!("M({})", hex(&k));
+            }
+            sc.count("t.rekey_resync");
+        } else if action < 81 {
             // one-sided rekey
             if r.chance(1, 2) {
                 let o = sc.ex.rekey(w, "out");
@@ -894,7 +944,7 @@ pub fn run_transport(cfg: &TransportCfg, sc: &mut Sc) {
             // manual rekey of direction d on one or both sides
             let k: [u8; 32] = r.bytes(32).try_into().unwrap();
             let k2: [u8; 32] = r.bytes(32).try_into().unwrap();
-            let both = r.chance(2, 3);
+            let both = r.chance(5, 6);
             // sometimes both direction keys are replaced in one call
             let two = r.chance(1, 3);
             let (ki, kr) = if two {
@@ -904,6 +954,10 @@ pub fn run_transport(cfg: &TransportCfg, sc: &mut Sc) {
             } else {
                 (None, Some(&k))
             };
+            if both && !two && dirs[d].recv_n != dirs[d].send_n && dirs[d].send_n != u64::MAX && r.chance(3, 4) {
+                sc.ex.set_recv_nonce(rd, dirs[d].send_n);
+                dirs[d].recv_n = dirs[d].send_n;
+            }
             let o = sc.ex.rekey_manual(w, ki, kr);
             sc.check_panic(&o, "rekey_manually");
             dirs[d].send_key = format!("M({})", hex(&k));
@@ -922,16 +976,32 @@ pub fn run_transport(cfg: &TransportCfg, sc: &mut Sc) {
         } else if action < 94 {
             // explicit receiving nonce
             let dd = &mut dirs[d];
-            let n = match r.below(5) {
-                0 => u64::MAX,
-                1 => u64::MAX - 1,
+            let n = match r.below(6) {
+                0 if late => u64::MAX,
+                1 if late => u64::MAX - 1,
                 2 => 0,
                 3 if !dd.sent.is_empty() => r.pick(&dd.sent).0,
-                _ => r.next() % 8,
+                4 => dd.recv_n.wrapping_sub(r.below(4) as u64).min(u64::MAX - 3) % (dd.send_n.max(1) + 8),
+                // realign with the sender: the next message it will write (after loss, or after a detour above)
+                _ => dd.send_n,
             };
             sc.ex.set_recv_nonce(rd, n);
             dd.recv_n = n;
             sc.count("t.set_recv_nonce");
+            // a late / repeated datagram: when the counter was wound back (or forward) onto a message the sender wrote
+            // under the receiver's current key, read it straight away; the counter must then be n + 1 exactly
+            if n != u64::MAX {
+                if let Some((_, m, p, _)) = dd.sent.iter().find(|(sn, _, _, key)| *sn == n && *key == dd.recv_key).cloned() {
+                    let o = sc.ex.t_read(rd, &m, p.len() + [0usize, 16, 100][r.below(3)]);
+                    sc.check_panic(&o, "t_read after set_receiving_nonce");
+                    sc.count("t.read.explicit_nonce");
+                    if o.bytes() != Some(p.as_slice()) {
+                        sc.viol("C05", format!("{}: message {n} not accepted after set_receiving_nonce({n}): {o:?}", cfg.name));
+                    } else {
+                        dd.recv_n = n + 1;
+                    }
+                }
+            }
         } else {
             // place the sending nonce near the end (hook)
             let dd = &mut dirs[d];
